@@ -566,6 +566,8 @@ func monitor(c Case) (kind, what string, params P) {
 		return monitorWithStack(c)
 	case "extras":
 		return tryExtras(c)
+	case "wsdepth":
+		return monitorStackDepth(c)
 	default:
 		return monitorMore(c)
 	}
